@@ -43,3 +43,25 @@ Proof.
   unfold script_lags, script_leads in *. split; [lia|]. intros k Ik.
   pose proof (min0_le_in _ _ Ik). pose proof (max0_ge_in _ _ Ik). lia.
 Qed.
+
+(* what the options must NOT change: the four name lists (and NAMES) are the same whatever lags / leads / minima are given *)
+Theorem lists_independent_of_options p syms o1 o2 c1 c2 : wf_program p = true -> fn_guard p = true ->
+  program_symbols p = Ret syms -> class_of syms o1 = Ret c1 -> class_of syms o2 = Ret c2 ->
+  c_endogenous c1 = c_endogenous c2 /\ c_exogenous c1 = c_exogenous c2 /\ c_parameters c1 = c_parameters c2 /\
+  c_errors c1 = c_errors c2 /\ c_names c1 = c_names c2.
+Proof.
+  intros W G A C1 C2. destruct (name_lists p W G syms o1 c1 A C1) as (E1 & E2 & E3 & E4).
+  destruct (name_lists p W G syms o2 c2 A C2) as (F1 & F2 & F3 & F4).
+  unfold c_names. rewrite E1, E2, E3, E4, F1, F2, F3, F4. repeat split; reflexivity.
+Qed.
+(* … and lags options do not touch LEADS, leads options do not touch LAGS *)
+Theorem lags_options_do_not_touch_leads p syms o c lg mlg : wf_program p = true -> fn_guard p = true ->
+  program_symbols p = Ret syms -> class_of syms o = Ret c ->
+  forall c', class_of syms (mkOpts lg (o_leads o) mlg (o_min_leads o)) = Ret c' -> c_leads c' = c_leads c.
+Proof.
+  intros W G A C c' C'. destruct (lags_leads p W G syms o c A C) as (_ & _ & L3 & L4).
+  destruct (lags_leads p W G syms _ c' A C') as (_ & _ & M3 & M4). cbn [o_leads o_min_leads] in M3, M4.
+  destruct (o_leads o) as [z|] eqn:E.
+  - rewrite (L3 z eq_refl), (M3 z eq_refl). reflexivity.
+  - destruct (L4 eq_refl) as (m & Em & ->). destruct (M4 eq_refl) as (m' & Em' & ->). congruence.
+Qed.
